@@ -36,6 +36,8 @@ def engFloatAdd (s : St) (e : Eng) (a b : Dense) (o : Opts) : Res EngOut := do
     (match fo.reuse with | some r => !sameOrd a r || !sameOrd b r | none => false)
   -- `e.StdEng.Add(a, b, opts...)`: the reuse tensor is the one `handleFuncOptsF` has already touched
   if useIter then engArithVV s "add" numberTypes a b (if fo.incr then o else { o with reuse := fo.reuse }) else
+  -- the headers come from `prepDataVV`: operands that share memory with the destination have been copied
+  let (s, a, b) ← prepAliasVV s a b fo.reuse
   let f : BinF := fun x y => .app2 "add" x y
   match fo.incr, fo.reuse with
   | true, some r =>
@@ -60,6 +62,7 @@ def engFloatFMA (s : St) (e : Eng) (a x y : Dense) : Res EngOut := do
   if a.dt != x.dt || x.dt != y.dt then throwErr "dtype mismatch"
   if !shapeEq a.shape x.shape then throwErr "shapeMismatch"
   if totalSize y.shape != totalSize a.shape then throwErr "shapeMismatch reuse"
+  let (s, a, x) ← prepAliasVV s a x (some y)
   let f : BinF := fun p q => .app2 "mul" p q
   let useIter := a.requiresIterator || x.requiresIterator || y.requiresIterator || !sameOrd a x ||
     !sameOrd a y || !sameOrd x y
@@ -76,6 +79,7 @@ def engFloatFMAScalar (s : St) (e : Eng) (a : Dense) (x : ScalarArg) (y : Dense)
   if y.dt != a.dt then throwErr "dtype mismatch reuse"
   if totalSize y.shape != totalSize a.shape then throwErr "shapeMismatch reuse"
   if x.dt != engDt e then throwErr "b is not a float of the engine's type"
+  let (s, a) ← prepAliasT s a (some y)
   let x0 ← s.rd x.win 1 0
   let f : BinF := fun p q => .app2 "mul" p q
   if a.requiresIterator || y.requiresIterator || !sameOrd y a then
